@@ -136,7 +136,9 @@ def run(tier: str) -> int:
         jobs.append((i, doc, ref, (i + chk.seed) % 7))
         # a closed block followed by another delimiter-looking line in the body: every spelling of the closing line against bare
         # (and padded) later lines -- the first closing line wins whatever its padding
-        later = [j for j in range(ref["hi"] + 1, len(doc) + 1) if doc[j - 1]["c"] == "delim"] if ref["kind"] == "closed" else []
+        def alone(j):      # piece j is a line of its own (not joined to a neighbour by a non-line-end separator)
+            return doc[j - 1]["c"] == "delim" and doc[j - 1]["s"] != "X" and (j == 1 or doc[j - 2]["s"] != "X")
+        later = [j for j in range(ref["hi"] + 1, len(doc) + 1) if alone(j)] if ref["kind"] == "closed" and alone(ref["hi"]) else []
         if later:
             for close in ("---", "--- ", " ---", "---\t"):
                 for lt in ("---", "--- "):
